@@ -18,7 +18,7 @@ type Scalars struct {
 
 	Name     string
 	Count    int
-	SizeOf   uint   `control:"Size-Of"`
+	SizeOf   uint `control:"Size-Of"`
 	Flag     bool
 	Must     string `required:"true"`
 	Hidden   string `control:"-"`
@@ -32,11 +32,14 @@ type Lists struct {
 	control.Paragraph
 
 	Words  []string
-	Commas []string `control:"Comma-List" delim:"," strip:" \n\r\t"`
-	Lines  []string `control:"Line-List" delim:"\n" strip:"\n\r\t "`
-	Pipes  []string `delim:"|" strip:" "`
-	Nums   []int    `delim:","`
+	Commas []string          `control:"Comma-List" delim:"," strip:" \n\r\t"`
+	Lines  []string          `control:"Line-List" delim:"\n" strip:"\n\r\t "`
+	Pipes  []string          `delim:"|" strip:" "`
+	Nums   []int             `delim:","`
 	Archs  []dependency.Arch `control:"Architecture"`
+	// a REQUIRED list is written even when it is empty ("Must-List: "), and reads back as the empty list
+	MustList []string `control:"Must-List" delim:"," strip:" " required:"true"`
+	MustNums []int    `control:"Must-Nums" delim:"," required:"true"`
 }
 
 // nested custom types
@@ -45,9 +48,9 @@ type Custom struct {
 
 	Version version.Version
 	Depends dependency.Dependency
-	Arch    dependency.Arch `control:"Architecture"`
+	Arch    dependency.Arch          `control:"Architecture"`
 	Hashes  []control.SHA256FileHash `control:"Checksums-Sha256" delim:"\n" strip:"\n\r\t " multiline:"true"`
-	Source  string `required:"true"`
+	Source  string                   `required:"true"`
 }
 
 // no embedded paragraph: unknown fields are dropped
@@ -61,18 +64,18 @@ type Plain struct {
 
 // Types is the registry: name -> zero value
 var Types = map[string]interface{}{
-	"probe_scalars": Scalars{},
-	"probe_lists":   Lists{},
-	"probe_custom":  Custom{},
-	"probe_plain":   Plain{},
-	"dsc":           control.DSC{},
-	"changes":       control.Changes{},
-	"source_par":    control.SourceParagraph{},
-	"binary_par":    control.BinaryParagraph{},
-	"binary_index":  control.BinaryIndex{},
-	"source_index":  control.SourceIndex{},
+	"probe_scalars":  Scalars{},
+	"probe_lists":    Lists{},
+	"probe_custom":   Custom{},
+	"probe_plain":    Plain{},
+	"dsc":            control.DSC{},
+	"changes":        control.Changes{},
+	"source_par":     control.SourceParagraph{},
+	"binary_par":     control.BinaryParagraph{},
+	"binary_index":   control.BinaryIndex{},
+	"source_index":   control.SourceIndex{},
 	"best_checksums": control.BestChecksums{},
-	"deb_control":   deb.Control{},
+	"deb_control":    deb.Control{},
 }
 
 var Order = []string{"probe_scalars", "probe_lists", "probe_custom", "probe_plain", "dsc", "changes", "source_par",
